@@ -20,7 +20,7 @@ section
 variable {I : State → Prop}
 
 macro "presx" : tactic =>
-  `(tactic| aesop (rule_sets := [Pres]) (config := { terminal := true, useDefaultSimpSet := false, useSimpAll := false }))
+  `(tactic| aesop (rule_sets := [Pres]) (config := { terminal := true, useDefaultSimpSet := false, useSimpAll := false, maxRuleApplications := 3000 }))
 
 theorem runTopCb_pres (X : LeafX I) (v : Val) (cb : TopCb) : Pres I (runTopCb v cb) := by
   have L := X.toLeaf
@@ -30,11 +30,21 @@ theorem newTop_pres (X : LeafX I) (cbs : List TopCb) : Pres I (newTop cbs) := by
   have L := X.toLeaf
   unfold newTop; presx
 
-theorem deliverTop_pres (X : LeafX I) (tid : Nat) (v : Val) : Pres I (deliverTop tid v) := by
+theorem deliverCbs_pres (X : LeafX I) (armed : Bool) (v : Val) (cbs : List TopCb) : Pres I (deliverCbs armed v cbs) := by
   have L := X.toLeaf
   have h := runTopCb_pres X
+  induction cbs with
+  | nil => unfold deliverCbs; presx
+  | cons cb rest ih =>
+    unfold deliverCbs
+    aesop (add safe apply h, safe apply ih) (rule_sets := [Pres])
+      (config := { terminal := true, useDefaultSimpSet := false, useSimpAll := false, maxRuleApplications := 3000 })
+
+theorem deliverTop_pres (X : LeafX I) (tid : Nat) (v : Val) : Pres I (deliverTop tid v) := by
+  have L := X.toLeaf
+  have h := deliverCbs_pres X
   unfold deliverTop
-  aesop (add safe apply h) (rule_sets := [Pres]) (config := { terminal := true, useDefaultSimpSet := false, useSimpAll := false })
+  aesop (add safe apply h) (rule_sets := [Pres]) (config := { terminal := true, useDefaultSimpSet := false, useSimpAll := false, maxRuleApplications := 3000 })
 
 theorem addDoneCallback_pres (X : LeafX I) (tid : Nat) (cb : TopCb) : Pres I (addDoneCallback tid cb) := by
   have L := X.toLeaf
@@ -45,13 +55,13 @@ theorem syncCoroutine_presx (X : LeafX I) (he : ∀ n t, Pres I (exec n t)) (nam
   have L := X.toLeaf
   have h := newTop_pres X
   unfold syncCoroutine
-  aesop (add safe apply h, safe apply he) (rule_sets := [Pres]) (config := { terminal := true, useDefaultSimpSet := false, useSimpAll := false })
+  aesop (add safe apply h, safe apply he) (rule_sets := [Pres]) (config := { terminal := true, useDefaultSimpSet := false, useSimpAll := false, maxRuleApplications := 3000 })
 
 theorem syncPlain_presx (X : LeafX I) {α : Type} (name : String) (body : M (R α)) (hb : Pres I body) :
     Pres I (syncPlain name body) := by
   have L := X.toLeaf
   unfold syncPlain
-  aesop (add safe apply hb) (rule_sets := [Pres]) (config := { terminal := true, useDefaultSimpSet := false, useSimpAll := false })
+  aesop (add safe apply hb) (rule_sets := [Pres]) (config := { terminal := true, useDefaultSimpSet := false, useSimpAll := false, maxRuleApplications := 3000 })
 
 theorem setOpt_pres (L : Leaf I) (u : Nat) (k : String) (v : JVal) : Pres I (setOpt u k v) := by
   unfold setOpt; presx
@@ -59,7 +69,7 @@ theorem setOpt_pres (L : Leaf I) (u : Nat) (k : String) (v : JVal) : Pres I (set
 theorem setOptBody_pres (L : Leaf I) (u : Nat) (k : String) (v : JVal) (b : Bool) : Pres I (setOptBody u k v b) := by
   have h := setOpt_pres L
   unfold setOptBody
-  aesop (add safe apply h) (rule_sets := [Pres]) (config := { terminal := true, useDefaultSimpSet := false, useSimpAll := false })
+  aesop (add safe apply h) (rule_sets := [Pres]) (config := { terminal := true, useDefaultSimpSet := false, useSimpAll := false, maxRuleApplications := 3000 })
 
 theorem addCore_pres (L : Leaf I) (p : JVal) : Pres I (addCore p) := by
   unfold addCore; presx
@@ -70,14 +80,14 @@ theorem runReady1_pres (X : LeafX I) (rec : Rec) (hrec : ∀ t, Pres I (rec t)) 
   have h := runTopCb_pres X
   cases r <;> simp only [runReady1] <;>
   aesop (add safe apply h, safe apply hrec, safe apply hq) (rule_sets := [Pres])
-    (config := { terminal := true, useDefaultSimpSet := false, useSimpAll := false })
+    (config := { terminal := true, useDefaultSimpSet := false, useSimpAll := false, maxRuleApplications := 3000 })
 
-theorem settleStep_pres (X : LeafX I) (he : ∀ n t, Pres I (exec n t)) (hq : Pres I sigQuit) (r : Ready) :
-    Pres I (settleStep r) := by
+theorem settleStep_pres (X : LeafX I) (he : ∀ n t, Pres I (exec n t)) (hq : Pres I sigQuit) :
+    Pres I settleStep := by
   have L := X.toLeaf
   have h := runReady1_pres X (exec 100000) (he 100000) hq
   unfold settleStep
-  aesop (add safe apply h) (rule_sets := [Pres]) (config := { terminal := true, useDefaultSimpSet := false, useSimpAll := false })
+  aesop (add safe apply h) (rule_sets := [Pres]) (config := { terminal := true, useDefaultSimpSet := false, useSimpAll := false, maxRuleApplications := 3000 })
 
 /-- slot-insensitive invariants: writer lemmas are enough -/
 theorem Spec.ofLeafX (X : LeafX I) : Spec I where
@@ -88,7 +98,7 @@ theorem Spec.ofLeafX (X : LeafX I) : Spec I where
   syncCo := fun he name c => syncCoroutine_presx X he name c []
   syncSetOpt := fun u k v b => syncPlain_presx X _ _ (setOptBody_pres X.toLeaf u k v b)
   syncAdd := fun p => syncPlain_presx X _ _ (addCore_pres X.toLeaf p)
-  settleStep := fun he hq r => settleStep_pres X he hq r
+  settleStep := fun he hq => settleStep_pres X he hq
 
 end
 end Circus.Core
